@@ -83,6 +83,10 @@ type Proc struct {
 type World struct {
 	Procs [4]*Proc
 	Own   []int
+	// the process currently installed (0 = none)
+	cur     int
+	restore func()
+	keys    []errbase.TypeKey
 }
 
 // NewWorld creates the processes.
@@ -94,32 +98,54 @@ func NewWorld(nslots int) *World {
 	return w
 }
 
-// In runs f inside process p: its rename registry and its decoders are installed.
+// In runs f inside process p. Switching is lazy: consecutive steps of the same
+// process run in the same installation of its registry and decoders (as they
+// would in a real process), a step of another process switches over.
 func (w *World) In(p int, f func()) {
+	w.enter(p)
+	f()
+	// keep what the process registered meanwhile
+	w.Procs[p].Migs = errbase.VerifMigrations()
+}
+
+func (w *World) enter(p int) {
+	if w.cur == p && w.restore != nil {
+		return
+	}
+	w.Leave()
 	pr := w.Procs[p]
-	restore := errbase.VerifSetMigrations(pr.Migs)
-	var keys []errbase.TypeKey
+	w.restore = errbase.VerifSetMigrations(pr.Migs)
+	w.cur = p
 	for _, ty := range pr.Tys {
 		ty := ty
 		k := errors.GetTypeKey(sample(ty)) // under this process's renames
-		keys = append(keys, k)
+		w.keys = append(w.keys, k)
 		errors.RegisterLeafDecoder(k, func(_ context.Context, msg string, _ []string, _ proto.Message) error {
 			return mk(ty, msg)
 		})
 	}
-	defer func() {
-		for _, k := range keys {
-			errors.RegisterLeafDecoder(k, nil)
-		}
-		// keep what the process registered meanwhile
-		pr.Migs = errbase.VerifMigrations()
-		restore()
-	}()
-	f()
+}
+
+// Leave uninstalls the current process.
+func (w *World) Leave() {
+	if w.restore == nil {
+		return
+	}
+	for _, k := range w.keys {
+		errors.RegisterLeafDecoder(k, nil)
+	}
+	w.keys = nil
+	w.Procs[w.cur].Migs = errbase.VerifMigrations()
+	w.restore()
+	w.restore = nil
+	w.cur = 0
 }
 
 // Init declares the types process p links.
 func (w *World) Init(p int, tys []string) {
+	if w.cur == p {
+		w.Leave()
+	}
 	w.Procs[p] = &Proc{Migs: map[errbase.TypeKey]errbase.TypeKey{}, Tys: tys}
 }
 
@@ -133,6 +159,19 @@ func (w *World) RegMig(p int, prev, new string) (panicked bool) {
 		}()
 		errors.RegisterTypeMigration(pkgPath, reflect.TypeOf(sample(prev)).String(), sample(new))
 	})
+	// the process registers its decoders after its migrations: under the new keys
+	for _, k := range w.keys {
+		errors.RegisterLeafDecoder(k, nil)
+	}
+	w.keys = nil
+	for _, ty := range w.Procs[p].Tys {
+		ty := ty
+		k := errors.GetTypeKey(sample(ty))
+		w.keys = append(w.keys, k)
+		errors.RegisterLeafDecoder(k, func(_ context.Context, msg string, _ []string, _ proto.Message) error {
+			return mk(ty, msg)
+		})
+	}
 	return panicked
 }
 
